@@ -204,6 +204,17 @@ def _relocate(new, at):
     return new
 
 
+def walk_scope_stmt(stmt):
+    """The nodes of a statement, not descending into nested function / class definitions or lambdas."""
+    todo = [stmt]
+    while todo:
+        n = todo.pop()
+        yield n
+        if isinstance(n, (ast.FunctionDef, ast.AsyncFunctionDef, ast.ClassDef, ast.Lambda)) and n is not stmt:
+            continue
+        todo.extend(ast.iter_child_nodes(n))
+
+
 def returns_in(fn):
     return [n for n in walk_scope(fn) if isinstance(n, ast.Return)]
 
@@ -1240,9 +1251,7 @@ class Canon(object):
                             if last.value is not None and not is_simple(last.value):
                                 bodyc.append(ast.Expr(value=last.value, lineno=line))
                         else:
-                            if return_inside_loop(callee):
-                                continue
-                            bodyc = canon._once(bodyc, None, line)
+                            bodyc = canon._once(bodyc, None, line, deep=return_inside_loop(callee))
                         out.extend(pre + bodyc)
                         s = None
                     # 5. value used
@@ -1254,10 +1263,10 @@ class Canon(object):
                             out.extend(pre + bodyc)
                             s = replace(s, call, _relocate(last.value, call))
                         else:
-                            if return_inside_loop(callee) or not rets:
+                            if not rets:
                                 continue
                             rv = canon._fresh('ret')
-                            bodyc = canon._once(bodyc, rv, line)
+                            bodyc = canon._once(bodyc, rv, line, deep=return_inside_loop(callee))
                             out.extend(pre + bodyc)
                             s = replace(s, call, ast.copy_location(ast.Name(id=rv, ctx=ast.Load()), call))
                     done = True
@@ -1297,34 +1306,58 @@ class Canon(object):
             _fill_empty(fn)
         return changed[0]
 
-    def _once(self, body, retvar, line):
-        """Wrap statements with early returns in a one-iteration loop: return E -> [retvar = E]; break."""
-        class R(ast.NodeTransformer):
-            def visit_FunctionDef(self, node):
-                return node
+    def _once(self, body, retvar, line, deep=False):
+        """Wrap statements with early returns in a one-iteration loop: return E -> [retvar = E]; break.
+        deep: a return may sit inside a loop of the body; it then also raises a fresh flag, and every loop that contains a return is
+        followed by `if flag: break`, so the return leaves all enclosing loops (a `break` skips the loops' else clauses as a return does)."""
+        flag = self._fresh('left') if deep else None
 
-            def visit_Lambda(self, node):
-                return node
+        def leave(node, depth):
+            out = []
+            if retvar is not None:
+                out.append(ast.Assign(targets=[ast.Name(id=retvar, ctx=ast.Store())],
+                                      value=node.value if node.value is not None else ast.Constant(value=None), lineno=line))
+            elif node.value is not None and not is_simple(node.value):
+                out.append(ast.Expr(value=node.value, lineno=line))
+            if depth:
+                out.append(ast.Assign(targets=[ast.Name(id=flag, ctx=ast.Store())], value=ast.Constant(value=True), lineno=line))
+            out.append(ast.Break(lineno=line))
+            return out
 
-            def visit_Return(self, node):
-                out = []
-                if retvar is not None:
-                    out.append(ast.Assign(targets=[ast.Name(id=retvar, ctx=ast.Store())],
-                                          value=node.value if node.value is not None else ast.Constant(value=None), lineno=line))
-                elif node.value is not None and not is_simple(node.value):
-                    out.append(ast.Expr(value=node.value, lineno=line))
-                out.append(ast.Break(lineno=line))
-                return out
-        new = []
-        for s in body:
-            r = R().visit(s)
-            new.extend(r if isinstance(r, list) else [r])
+        def conv(stmts, depth):
+            out = []
+            for s in stmts:
+                if isinstance(s, ast.Return):
+                    out.extend(leave(s, depth))
+                    continue
+                if isinstance(s, (ast.FunctionDef, ast.AsyncFunctionDef, ast.ClassDef)):
+                    out.append(s)
+                    continue
+                loop = isinstance(s, (ast.For, ast.While))
+                if loop and not deep:
+                    out.append(s)           # callers without `deep` have excluded returns inside loops
+                    continue
+                inner = loop and any(isinstance(n, ast.Return) for b in s.body for n in walk_scope_stmt(b))
+                for name in ('body', 'orelse', 'finalbody'):
+                    sub_ = getattr(s, name, None)
+                    if isinstance(sub_, list) and sub_ and isinstance(sub_[0], ast.stmt):
+                        setattr(s, name, conv(sub_, depth + 1 if (loop and name == 'body') else depth))
+                for h in (getattr(s, 'handlers', []) or []) + (getattr(s, 'cases', []) or []):
+                    h.body = conv(h.body, depth)
+                out.append(s)
+                if inner:
+                    out.append(ast.If(test=ast.Name(id=flag, ctx=ast.Load(), lineno=line, col_offset=0), body=[ast.Break(lineno=line)], orelse=[], lineno=line))
+            return out
+        new = conv(body, 0)
         if retvar is not None and not _always_leaves(new):
             new.append(ast.Assign(targets=[ast.Name(id=retvar, ctx=ast.Store())], value=ast.Constant(value=None), lineno=line))
         self.counter += 1
-        return [ast.For(target=ast.Name(id='%s%d' % (ONCE, self.counter), ctx=ast.Store()),
-                        iter=ast.Tuple(elts=[ast.Constant(value=0)], ctx=ast.Load()), body=new + [ast.Break(lineno=line)] if not _always_leaves(new) else new,
-                        orelse=[], lineno=line)]
+        once = ast.For(target=ast.Name(id='%s%d' % (ONCE, self.counter), ctx=ast.Store()),
+                       iter=ast.Tuple(elts=[ast.Constant(value=0)], ctx=ast.Load()), body=new + [ast.Break(lineno=line)] if not _always_leaves(new) else new,
+                       orelse=[], lineno=line)
+        if deep:
+            return [ast.Assign(targets=[ast.Name(id=flag, ctx=ast.Store())], value=ast.Constant(value=False), lineno=line), once]
+        return [once]
 
     # ---------------------------------------------------------------- [f(x) for x in it if c]  (statement)  ->  for loop
     def _stmt_comprehensions(self, fn):
